@@ -8,6 +8,7 @@ once to learn which plates are allowed, then once for every allowed plate with s
 make that plate the best *allowed* one (every disallowed remaining plate scores better
 still), so that every selection order consistent with the policy is followed.
 """
+import itertools
 import math
 
 import numpy as np
@@ -55,6 +56,8 @@ BOUNDS = {
         "pre_observed_plates_per_sample": [0, 1], "pre_observed_plates_per_screen": [0, 1], "layouts": ["interleaved"],
         "multi_batch_variant": {"k": [1, 2, 3], "samples": [1, 2, 3], "unobserved_plates_per_sample": [0, 3],
                                 "max_reference_states_per_configuration": 2500},
+        "immediate_reveal_variant": "as the multi-batch variant, every selected plate revealed at once and kept in the batch ids (<= 2 samples, or <= 2 unobserved plates per sample)",
+        "multi_sample_plates": "2 wells (s0,s1) at 3 name positions x remaining/batch/observed; every arrangement of 3-4 wells over two samples, contiguous and spread over the screen",
         "depth": "fixpoint (no depth bound)", "max_states_per_configuration": 200000,
     },
     "thorough": {
@@ -63,6 +66,7 @@ BOUNDS = {
         "layouts": ["interleaved", "blocked"],
         "multi_batch_variant": {"k": [1, 2, 3, 4], "samples": [1, 2, 3], "unobserved_plates_per_sample": [0, 4],
                                 "max_reference_states_per_configuration": 30000},
+        "immediate_reveal_variant": "as quick with the thorough sizes", "multi_sample_plates": "as quick, more base screens",
         "depth": "fixpoint (no depth bound)", "max_states_per_configuration": 200000,
     },
 }
@@ -99,9 +103,13 @@ def build_rows(cfg):
                 g += 1
     m = cfg.get("mplate")
     if m:
-        for s in (0, 1):
-            rows.append((f"s{s}", m["name"], TREAT, round(0.11 + 0.01 * g, 4), m["where"] == "observed"))
+        # the wells of the multi-sample plate: sample indices in row order (default s0, s1); "spread": its first well is the
+        # first row of the screen, the others the last rows
+        extra = []
+        for s in m.get("pattern", (0, 1)):
+            extra.append((f"s{s}", m["name"], TREAT, round(0.11 + 0.01 * g, 4), m["where"] == "observed"))
             g += 1
+        rows = (extra[:1] + rows + extra[1:]) if m.get("spread") else rows + extra
     return rows
 
 
@@ -139,7 +147,7 @@ def _est(cfg):
     """Expected number of BFS states of a configuration."""
     k = cfg["k"]
     us = [u for u, _ in cfg["samples"]]
-    if cfg["variant"] != "retrospective":
+    if cfg["variant"] not in ("retrospective", "retrospective-immediate"):
         return _batch_states(us, k)
     total = 0
 
@@ -171,6 +179,10 @@ def configurations(tier):
             c = {"variant": "retrospective", "k": k, "samples": samples, "layout": "interleaved"}
             if _est(c) <= mb["max_reference_states_per_configuration"]:
                 out.append(c)
+                # the retrospective workflow proper: every selected plate is revealed AT ONCE (select -> reveal -> select ...),
+                # while its id stays in the batch list handed to the next selection of the same batch
+                if max(u for u, _ in samples) <= mb["unobserved_plates_per_sample"][1] - 1 or len(samples) <= 2:
+                    out.append(dict(c, variant="retrospective-immediate"))
     return out
 
 
@@ -188,6 +200,17 @@ def multi_sample_cases(tier):
                     for nb in (0, 1, 2):
                         out.append({"variant": "multi", "k": k, "samples": samples, "layout": "interleaved",
                                     "mplate": {"name": name, "where": where}, "n_batch": nb})
+    # every arrangement of 2..4 wells over two samples that uses both (a,b,a / a,a,b,a / b,a,b ...), contiguous and spread
+    patterns = [p for n in (3, 4) for p in itertools.product((0, 1), repeat=n) if len(set(p)) == 2] + [(1, 0), (0, 1, 2), (2, 0, 2)]
+    for samples in bases[:3]:
+        for k in ks[:2]:
+            for pat in patterns:
+                if max(pat) >= len(samples):
+                    continue
+                for where in ("remaining", "batch"):
+                    for spread in (False, True):
+                        out.append({"variant": "multi", "k": k, "samples": samples, "layout": "interleaved",
+                                    "mplate": {"name": "p1_m", "where": where, "pattern": list(pat), "spread": spread}, "n_batch": 1})
     return out
 
 
@@ -274,7 +297,8 @@ class Ctx:
     def __init__(self, cfg):
         self.cfg = cfg
         self.k = int(cfg["k"])
-        self.retro = cfg["variant"] == "retrospective"
+        self.retro = cfg["variant"] in ("retrospective", "retrospective-immediate")
+        self.immediate = cfg["variant"] == "retrospective-immediate"
         self.infos = {(): _Info(make_screen(build_rows(cfg)))}
         self.hist = {}
         self.two_call = True
@@ -435,6 +459,8 @@ def expand(ctx, state, col):
                     b_ = ()
                 else:
                     b_ = tuple(sorted(b_ + (lab,)))
+                    if ctx.immediate:
+                        r_ = tuple(sorted(set(r_) | {lab}))
             assert (b_, r_) == (tuple(batch), tuple(revealed)), "history replay does not reach the state"
             allowed_l, _got_l = ask(info, k, batch, scores, col, policy=pol)
             col.count("long-lived policy replays")
@@ -516,7 +542,17 @@ def expand(ctx, state, col):
                 col.violation("C16|select|returned-plate-not-allowed",
                               f"k={k}: select_next_plate returned {got3}, which the policy did not allow ({allowed3}) in batch {list(batch)} "
                               f"(allowed plates all carry the worst score)", _case(ctx, state, note))
-    if ctx.retro and batch and len(batch) % k == 0:
+    if ctx.immediate:
+        # the selected plate is revealed straight away; it stays in the batch
+        moved = []
+        for label, (nb, _rev) in out:
+            new_rev = tuple(sorted(set(revealed) | {label}))
+            ctx.info(new_rev, parent=revealed, newly=[label], col=col)
+            moved.append((label, (nb, new_rev)))
+        out = moved
+        if batch and len(batch) % k == 0:
+            out.append(("close", ((), revealed)))
+    elif ctx.retro and batch and len(batch) % k == 0:
         new_rev = tuple(sorted(set(revealed) | set(batch)))
         ctx.info(new_rev, parent=revealed, newly=list(batch), col=col)
         out.append(("close", ((), new_rev)))
